@@ -401,3 +401,104 @@ def _replace(root, old, new) -> None:
                 for i, v in enumerate(val):
                     if v is old:
                         val[i] = new
+
+
+# ----------------------------------------------------------------------------------------------------------------------
+# new module-level constants ("name a magic constant"): a module-level name that did not exist on the reference tree, is
+# bound exactly once to a str / bytes / number literal (or a `%`/`+` expression of such), is never rebound (no second
+# assignment, no `global`, no `<module>.NAME = ...` anywhere) is folded into its uses inside the functions of its module
+# and of the modules that import it by name.  The rules then see the value, as they did before the constant was named.
+_REFC = os.path.join(os.path.dirname(os.path.abspath(__file__)), "reference_constants.json")
+
+
+def reference_constants() -> set[str] | None:
+    if not os.path.exists(_REFC):
+        return None
+    with open(_REFC) as fh:
+        return set(json.load(fh))
+
+
+def _const_value(node, known):
+    if isinstance(node, ast.Constant) and isinstance(node.value, (str, bytes, int, float)) and not isinstance(node.value, bool):
+        return node
+    if isinstance(node, ast.Name) and node.id in known:
+        return known[node.id]
+    if isinstance(node, ast.BinOp) and isinstance(node.op, (ast.Add, ast.Sub, ast.Mult)):
+        l, r = _const_value(node.left, known), _const_value(node.right, known)
+        if l is not None and r is not None:
+            try:
+                v = {ast.Add: lambda a, b: a + b, ast.Sub: lambda a, b: a - b, ast.Mult: lambda a, b: a * b}[type(node.op)](l.value, r.value)
+            except Exception:  # noqa: BLE001
+                return None
+            if isinstance(v, (str, bytes, int, float)) and (not isinstance(v, (str, bytes)) or len(v) < 4096):
+                return ast.Constant(value=v)
+    return None
+
+
+def inline_new_constants(trees: dict, reference: set[str] | None) -> list[str]:
+    if reference is None:
+        return []
+    # names rebound from elsewhere / declared global are not constants
+    tainted = set()
+    for mod, tree in trees.items():
+        for n in ast.walk(tree):
+            if isinstance(n, ast.Global):
+                tainted.update(n.names)
+            if isinstance(n, (ast.Assign, ast.AugAssign, ast.AnnAssign)):
+                for t in (n.targets if isinstance(n, ast.Assign) else [n.target]):
+                    if isinstance(t, ast.Attribute) and isinstance(t.value, ast.Name):
+                        tainted.add(t.attr)
+    folded = []
+    per_mod: dict[str, dict] = {}
+    for mod, tree in trees.items():
+        counts: dict[str, int] = {}
+        for s_ in tree.body:
+            if isinstance(s_, ast.Assign):
+                for t in s_.targets:
+                    for x in ast.walk(t):
+                        if isinstance(x, ast.Name):
+                            counts[x.id] = counts.get(x.id, 0) + 1
+            elif isinstance(s_, (ast.AnnAssign, ast.AugAssign)) and isinstance(s_.target, ast.Name):
+                counts[s_.target.id] = counts.get(s_.target.id, 0) + 1
+        known: dict = {}
+        for s_ in tree.body:
+            if isinstance(s_, ast.Assign) and len(s_.targets) == 1 and isinstance(s_.targets[0], ast.Name):
+                nm = s_.targets[0].id
+                if counts.get(nm) != 1 or nm in tainted or f"{mod}.{nm}" in reference:
+                    continue
+                v = _const_value(s_.value, known)
+                if v is not None:
+                    known[nm] = v
+        if known:
+            per_mod[mod] = known
+    if not per_mod:
+        return []
+    for mod, tree in trees.items():
+        avail = dict(per_mod.get(mod, {}))
+        for s_ in tree.body:
+            if isinstance(s_, ast.ImportFrom) and s_.module and s_.level >= 1:
+                src = s_.module.split(".")[-1]
+                for a in s_.names:
+                    if src in per_mod and a.name in per_mod[src] and a.asname in (None, a.name):
+                        avail[a.name] = per_mod[src][a.name]
+        if not avail:
+            continue
+        for fn in [n for n in ast.walk(tree) if isinstance(n, (ast.FunctionDef, ast.AsyncFunctionDef))]:
+            local = {a.arg for a in fn.args.args + fn.args.kwonlyargs + fn.args.posonlyargs}
+            if fn.args.vararg:
+                local.add(fn.args.vararg.arg)
+            if fn.args.kwarg:
+                local.add(fn.args.kwarg.arg)
+            for x in ast.walk(fn):
+                if isinstance(x, ast.Name) and isinstance(x.ctx, (ast.Store, ast.Del)):
+                    local.add(x.id)
+
+            class _T(ast.NodeTransformer):
+                def visit_Name(self, node):
+                    if isinstance(node.ctx, ast.Load) and node.id in avail and node.id not in local:
+                        folded.append(f"{mod}.{node.id}")
+                        return ast.copy_location(ast.Constant(value=avail[node.id].value), node)
+                    return node
+
+            _T().visit(fn)
+    return sorted(set(folded))
